@@ -45,7 +45,7 @@ Qed.
 (* ================================================================== MinErrorFlow (C16) *)
 Section MEF.
   Variable I : mef_inst.
-  Let E := e_edges I.
+  Let E := mef_edges I.
   Let ub := mef_ub I.
 
   Definition xof (a : var -> Q) (e : edge) : Q := a (Xe e).
@@ -54,13 +54,13 @@ Section MEF.
   (* what the rows and columns of encode_mef say, in graph terms *)
   Definition mef_sem (a : var -> Q) : Prop :=
     (forall e, In e E -> 0 <= xof a e <= ub /\ 0 <= errof a e <= ub /\
-                         (e_int I = true -> is_int (xof a e) /\ is_int (errof a e))) /\
-    (forall v, In v (e_nodes I) -> conserved I v = true ->
-               sumq (xof a) (in_edges E v) == sumq (xof a) (out_edges E v)) /\
+                         (mef_int I = true -> is_int (xof a e) /\ is_int (errof a e))) /\
+    (forall v, In v (mef_nodes I) -> conserved I v = true ->
+               sumq (xof a) (mef_in_edges E v) == sumq (xof a) (out_edges E v)) /\
     (forall e, In e E -> if ignored I e then errof a e == 0
                          else fval I e - xof a e <= errof a e /\ xof a e - fval I e <= errof a e).
 
-  Lemma cons_row_sem a v : sat_row a (cons_row I v) <-> sumq (xof a) (in_edges E v) == sumq (xof a) (out_edges E v).
+  Lemma cons_row_sem a v : sat_row a (cons_row I v) <-> sumq (xof a) (mef_in_edges E v) == sumq (xof a) (out_edges E v).
   Proof.
     unfold cons_row. rewrite sat_row_eq, eval_app, eval_ones_sumq, eval_map_const. fold E. unfold xof. split; intros H; lra.
   Qed.
@@ -109,21 +109,21 @@ Section MEF.
 
   Definition charged : list edge := filter (fun e => negb (ignored I e)) E.
   Definition src_out : list edge :=
-    if Qlt_bool 0 (e_lambda I) then match e_src I with Some s => out_edges E s | None => [] end else [].
+    if Qlt_bool 0 (mef_lambda I) then match mef_src I with Some s => out_edges E s | None => [] end else [].
 
   (* the objective: scaled error variables of the charged edges + lambda * flow leaving the source *)
   Lemma mef_objective_sem a :
     objective a (encode_mef I) ==
-    sumq (fun e => scale_of I e * errof a e) charged + e_lambda I * sumq (xof a) src_out.
+    sumq (fun e => scale_of I e * errof a e) charged + mef_lambda I * sumq (xof a) src_out.
   Proof.
     unfold objective, encode_mef, mef_obj, charged, src_out. cbn [obj]. fold E.
     rewrite eval_app, eval_map_coef. unfold errof, xof.
-    destruct (Qlt_bool 0 (e_lambda I)); [destruct (e_src I)|]; cbn [eval sumq]; try rewrite eval_map_const; ring.
+    destruct (Qlt_bool 0 (mef_lambda I)); [destruct (mef_src I)|]; cbn [eval sumq]; try rewrite eval_map_const; ring.
   Qed.
 
   (* the cost of a flow x: scaled L1 distance on the charged edges + sparsity term *)
   Definition flow_cost (x : edge -> Q) : Q :=
-    sumq (fun e => scale_of I e * absd (fval I e) (x e)) charged + e_lambda I * sumq x src_out.
+    sumq (fun e => scale_of I e * absd (fval I e) (x e)) charged + mef_lambda I * sumq x src_out.
 
   Lemma charged_in e : In e charged -> In e E /\ ignored I e = false.
   Proof. unfold charged. rewrite filter_In, negb_true_iff. tauto. Qed.
@@ -158,8 +158,8 @@ Section MEF.
 
   (* a flow on the model graph, within the variable bounds *)
   Definition is_flow_ub (x : edge -> Q) : Prop :=
-    (forall e, In e E -> 0 <= x e <= ub /\ (e_int I = true -> is_int (x e))) /\
-    (forall v, In v (e_nodes I) -> conserved I v = true -> sumq x (in_edges E v) == sumq x (out_edges E v)).
+    (forall e, In e E -> 0 <= x e <= ub /\ (mef_int I = true -> is_int (x e))) /\
+    (forall v, In v (mef_nodes I) -> conserved I v = true -> sumq x (mef_in_edges E v) == sumq x (out_edges E v)).
 
   Lemma is_int_sub p q : is_int p -> is_int q -> is_int (p - q).
   Proof. intros [z1 H1] [z2 H2]. exists (z1 - z2)%Z. rewrite H1, H2. unfold Zminus. rewrite inject_Z_plus, inject_Z_opp. ring. Qed.
@@ -168,7 +168,7 @@ Section MEF.
   Proof. intros Hp Hq. unfold absd. destruct (Qle_bool q p); apply is_int_sub; assumption. Qed.
 
   Hypothesis f_range : forall e, In e E -> 0 <= fval I e <= ub.
-  Hypothesis f_int : e_int I = true -> forall e, In e E -> is_int (fval I e).
+  Hypothesis f_int : mef_int I = true -> forall e, In e E -> is_int (fval I e).
 
   Theorem mef_tight_assignment x : is_flow_ub x ->
     sat (assign_of x) (encode_mef I) /\
@@ -204,7 +204,7 @@ Section MEF.
     sat a (encode_mef I) -> (forall b, sat b (encode_mef I) -> obj_le (encode_mef I) a b) ->
     is_flow_ub (xof a) /\
     (forall y, is_flow_ub y -> flow_cost (xof a) <= flow_cost y) /\
-    (0 < e_lambda I \/ e_lambda I == 0 -> (forall e, In e E -> 0 < scale_of I e \/ ignored I e = true) ->
+    (0 < mef_lambda I \/ mef_lambda I == 0 -> (forall e, In e E -> 0 < scale_of I e \/ ignored I e = true) ->
      objective a (encode_mef I) == flow_cost (xof a)).
   Proof.
     intros Hs Hsat Hopt. pose proof Hsat as Hsem. apply mef_enc_exact in Hsem. destruct Hsem as (HB & HC & HR).
@@ -274,19 +274,19 @@ Section MSC.
   Variable I : msc_inst.
 
   Definition msc_sem (a : var -> Q) : Prop :=
-    (forall i, In i (idxs (s_subsets I)) -> bin (a (Sub i))) /\
-    (forall el, In el (s_universe I) ->
-       exists i S, In (i, S) (zipn 0 (s_subsets I)) /\ nmem el S = true /\ a (Sub i) == 1).
+    (forall i, In i (idxs (sc_subsets I)) -> bin (a (Sub i))) /\
+    (forall el, In el (sc_universe I) ->
+       exists i S, In (i, S) (zipn 0 (sc_subsets I)) /\ nmem el S = true /\ a (Sub i) == 1).
 
   (* the rows are satisfied exactly when the chosen subsets (value 1) cover the universe *)
   Theorem msc_enc_exact m a : encode_msc I = Some m -> (sat a m <-> msc_sem a).
   Proof.
-    unfold encode_msc. destruct (s_weights I) as [ws|]; [|discriminate].
-    destruct (msc_obj 0 (s_subsets I) ws) as [o|]; [|discriminate]. cbn [option_map]. intros E. injection E as <-.
+    unfold encode_msc. destruct (sc_weights I) as [ws|]; [|discriminate].
+    destruct (msc_obj 0 (sc_subsets I) ws) as [o|]; [|discriminate]. cbn [option_map]. intros E. injection E as <-.
     unfold sat, msc_sem. cbn [cols rows]. unfold msc_cols, msc_rows. rewrite !Forall_map_iff.
-    assert (Hrow : (forall i, In i (idxs (s_subsets I)) -> bin (a (Sub i))) -> forall el,
+    assert (Hrow : (forall i, In i (idxs (sc_subsets I)) -> bin (a (Sub i))) -> forall el,
               sat_row a (cover_row I el) <->
-              exists i S, In (i, S) (zipn 0 (s_subsets I)) /\ nmem el S = true /\ a (Sub i) == 1).
+              exists i S, In (i, S) (zipn 0 (sc_subsets I)) /\ nmem el S = true /\ a (Sub i) == 1).
     { intros Hb el. unfold cover_row. rewrite sat_row_ge, eval_ones_sumq.
       rewrite (bin_sum_ge1 (fun iS => a (Sub (fst iS)))).
       - split.
@@ -294,7 +294,7 @@ Section MSC.
         + intros (i & S & Hin & Hm & H1). exists (i, S). split; [apply filter_In; split; assumption|exact H1].
       - intros [i S] Hin. apply filter_In in Hin. destruct Hin as [Hin _]. apply Hb. cbn [fst]. eapply zipn_in_idxs. exact Hin. }
     split.
-    - intros [HC HR]. assert (Hb : forall i, In i (idxs (s_subsets I)) -> bin (a (Sub i))).
+    - intros [HC HR]. assert (Hb : forall i, In i (idxs (sc_subsets I)) -> bin (a (Sub i))).
       { intros i Hi. apply bin_of_col. apply (HC i Hi). }
       split; [exact Hb|]. intros el Hel. apply (Hrow Hb). apply HR. exact Hel.
     - intros [Hb HU]. split.
@@ -314,21 +314,21 @@ Section MSC.
       cbn [length firstn zipn sumq eval fst snd]. split; [rewrite H1; ring|lia].
   Qed.
 
-  Theorem msc_objective_is_weight m a ws : s_weights I = Some ws -> encode_msc I = Some m ->
-    objective a m == sumq (fun iw => snd iw * a (Sub (fst iw))) (zipn 0 (firstn (length (s_subsets I)) ws)).
+  Theorem msc_objective_is_weight m a ws : sc_weights I = Some ws -> encode_msc I = Some m ->
+    objective a m == sumq (fun iw => snd iw * a (Sub (fst iw))) (zipn 0 (firstn (length (sc_subsets I)) ws)).
   Proof.
-    unfold encode_msc. intros ->. destruct (msc_obj 0 (s_subsets I) ws) as [o|] eqn:E; [|discriminate].
+    unfold encode_msc. intros ->. destruct (msc_obj 0 (sc_subsets I) ws) as [o|] eqn:E; [|discriminate].
     cbn [option_map]. intros H. injection H as <-. unfold objective. cbn [obj]. apply (msc_obj_sem a _ _ _ _ E).
   Qed.
 End MSC.
 
 (* finding #18: with the documented default (no weights) no model is built although a cover exists *)
 Theorem msc_default_weights_refuted : exists I : msc_inst,
-  s_weights I = None /\ encode_msc I = None /\
-  (forall el, In el (s_universe I) -> exists S, In S (s_subsets I) /\ nmem el S = true).
+  sc_weights I = None /\ encode_msc I = None /\
+  (forall el, In el (sc_universe I) -> exists S, In S (sc_subsets I) /\ nmem el S = true).
 Proof.
-  exists {| s_universe := [1; 2; 3]%N; s_subsets := [[1; 2]; [2; 3]; [3]]%N; s_weights := None |}.
-  split; [reflexivity|]. split; [reflexivity|]. cbn [s_universe s_subsets].
+  exists {| sc_universe := [1; 2; 3]%N; sc_subsets := [[1; 2]; [2; 3]; [3]]%N; sc_weights := None |}.
+  split; [reflexivity|]. split; [reflexivity|]. cbn [sc_universe sc_subsets].
   intros el [<-|[<-|[<-|[]]]].
   - exists [1; 2]%N. split; [left; reflexivity|reflexivity].
   - exists [1; 2]%N. split; [left; reflexivity|reflexivity].
@@ -337,21 +337,25 @@ Qed.
 
 (* ================================================================== MinGenSet: the search loop *)
 Lemma mgs_loop_on_spec status : forall ks tried res, mgs_loop_on status ks = (tried, res) ->
+  exists pre, Forall (fun k' => status k' = MgInfeasible) pre /\
   match res with
-  | Some k => exists pre post, ks = pre ++ k :: post /\ tried = pre ++ [k] /\ status k = MOptimal /\
-                               Forall (fun k' => status k' <> MOptimal) pre
-  | None => tried = ks /\ Forall (fun k' => status k' <> MOptimal) ks
+  | Some k => exists post, ks = pre ++ k :: post /\ tried = pre ++ [k] /\ status k = MgOptimal
+  | None => (tried = ks /\ pre = ks) \/
+            (exists k post, ks = pre ++ k :: post /\ tried = pre ++ [k] /\ status k = MgOther)
   end.
 Proof.
   induction ks as [|k r IH]; intros tried res H; cbn [mgs_loop_on] in H.
-  - injection H as <- <-. split; [reflexivity|constructor].
-  - destruct (is_opt (status k)) eqn:Eo.
-    + injection H as <- <-. exists [], r. repeat split; try constructor. destruct (status k); try discriminate. reflexivity.
+  - injection H as <- <-. exists []. split; [constructor|]. left. split; reflexivity.
+  - destruct (status k) eqn:Es.
+    + injection H as <- <-. exists []. split; [constructor|]. exists r. repeat split. exact Es.
     + destruct (mgs_loop_on status r) as [t' r'] eqn:Er. injection H as <- <-.
-      assert (Hk : status k <> MOptimal) by (intros C; rewrite C in Eo; discriminate).
-      specialize (IH t' r' eq_refl). destruct r' as [k'|].
-      * destruct IH as (pre & post & -> & -> & Hs & Hp). exists (k :: pre), post. repeat split; try assumption. constructor; assumption.
-      * destruct IH as [-> Hp]. split; [reflexivity|constructor; assumption].
+      destruct (IH t' r' eq_refl) as (pre & Hp & Hres). exists (k :: pre). split; [constructor; assumption|].
+      destruct r' as [k'|].
+      * destruct Hres as (post & -> & -> & Hs). exists post. repeat split. exact Hs.
+      * destruct Hres as [[-> ->]|(k' & post & -> & -> & Hs)].
+        -- left. split; reflexivity.
+        -- right. exists k', post. repeat split. exact Hs.
+    + injection H as <- <-. exists []. split; [constructor|]. right. exists k, r. repeat split. exact Es.
 Qed.
 
 Lemma seq_split_at : forall pre lb len k post, seq lb len = pre ++ k :: post ->
@@ -366,37 +370,49 @@ Qed.
 Section MgsSearch.
   Variable feasible : nat -> Prop.          (* "the model for k has a satisfying assignment" *)
   Variable status : nat -> mstatus.
-  Hypothesis opt_feasible : forall k, status k = MOptimal -> feasible k.
-  Hypothesis inf_infeasible : forall k, status k = MInfeasible -> ~ feasible k.
+  Hypothesis opt_feasible : forall k, status k = MgOptimal -> feasible k.
+  Hypothesis inf_infeasible : forall k, status k = MgInfeasible -> ~ feasible k.
 
-  (* the loop answers k only if the model for k is optimal; if every status met before was kInfeasible
-     (no inconclusive run), k is the least feasible size from the lower bound on *)
+  (* the loop answers k only if the model for k is optimal and every smaller size from the lower bound on
+     was proven infeasible: k is the least feasible size >= lowerbound *)
   Theorem mgs_loop_sound lb n tried k : mgs_loop status lb n = (tried, Some k) ->
-    feasible k /\ In k (mgs_range lb n) /\ (lb <= k)%nat /\
-    ((forall k', In k' tried -> k' <> k -> status k' = MInfeasible) ->
-     forall k', (lb <= k' < k)%nat -> ~ feasible k').
+    feasible k /\ In k (mgs_range lb n) /\ (lb <= k)%nat /\ forall k', (lb <= k' < k)%nat -> ~ feasible k'.
   Proof.
-    unfold mgs_loop. intros H. apply mgs_loop_on_spec in H. destruct H as (pre & post & Hks & Htr & Hs & Hp).
+    unfold mgs_loop. intros H. apply mgs_loop_on_spec in H. destruct H as (pre & Hp & post & Hks & Htr & Hs).
     unfold mgs_range in *. destruct (seq_split_at _ _ _ _ _ Hks) as [Hpre Hk].
     split; [apply opt_feasible; exact Hs|]. split; [rewrite Hks; apply in_or_app; right; left; reflexivity|]. split; [lia|].
-    intros Hinf k' Hk'. apply inf_infeasible. apply Hinf.
-    - rewrite Htr. apply in_or_app. left. rewrite Hpre. apply in_seq. lia.
-    - lia.
+    intros k' Hk'. apply inf_infeasible. rewrite Forall_forall in Hp. apply Hp. rewrite Hpre. apply in_seq. lia.
   Qed.
 
+  (* unsolved means: the whole range was proven infeasible, or an inconclusive status was met (and the loop stopped there) *)
   Theorem mgs_loop_none lb n tried : mgs_loop status lb n = (tried, None) ->
-    tried = mgs_range lb n /\ forall k, In k (mgs_range lb n) -> status k <> MOptimal.
+    (tried = mgs_range lb n /\ forall k, In k (mgs_range lb n) -> ~ feasible k) \/
+    (exists k, In k tried /\ status k = MgOther).
   Proof.
-    unfold mgs_loop. intros H. apply mgs_loop_on_spec in H. destruct H as [-> Hp]. split; [reflexivity|].
-    intros k Hk. rewrite Forall_forall in Hp. apply Hp. exact Hk.
+    unfold mgs_loop. intros H. apply mgs_loop_on_spec in H. destruct H as (pre & Hp & [[-> Hpre]|(k & post & Hks & -> & Hs)]).
+    - left. split; [reflexivity|]. intros k Hk. apply inf_infeasible. rewrite Forall_forall in Hp. apply Hp. rewrite Hpre. exact Hk.
+    - right. exists k. split; [apply in_or_app; right; left; reflexivity|exact Hs].
+  Qed.
+
+  (* with conclusive statuses the loop succeeds whenever some size of its range is feasible *)
+  Theorem mgs_loop_complete lb n : (forall k, status k = MgOptimal \/ status k = MgInfeasible) ->
+    (exists k, In k (mgs_range lb n) /\ feasible k) -> exists tried k, mgs_loop status lb n = (tried, Some k).
+  Proof.
+    intros Hc (k0 & Hin & Hf). unfold mgs_loop. induction (mgs_range lb n) as [|k r IH]; [destruct Hin|].
+    cbn [mgs_loop_on]. destruct (Hc k) as [E|E]; rewrite E.
+    - exists [k], k. reflexivity.
+    - destruct Hin as [->|Hin]; [exfalso; apply (inf_infeasible _ E); exact Hf|].
+      destruct (IH Hin) as (tried & k' & ->). exists (k :: tried), k'. reflexivity.
   Qed.
 End MgsSearch.
 
-(* finding #14: an inconclusive status is skipped and the next size is reported as solved *)
-Theorem mgs_loop_skips_inconclusive_refuted : exists (status : nat -> mstatus) lb n tried k,
-  status 1%nat = MOther /\ mgs_loop status lb n = (tried, Some k) /\ In 1%nat tried /\ (1 < k)%nat.
+(* FIXED finding #14 (03febc7): the old loop skipped an inconclusive status and reported the next size as solved;
+   the loop as it is now stops unsolved on the same history *)
+Theorem mgs_loop_old_skips_inconclusive_refuted : exists (status : nat -> mstatus) lb n tried k,
+  status 1%nat = MgOther /\ mgs_loop_old status lb n = (tried, Some k) /\ In 1%nat tried /\ (1 < k)%nat /\
+  mgs_loop status lb n = ([1%nat], None).
 Proof.
-  exists (fun k => if (k =? 1)%nat then MOther else MOptimal), 1%nat, 3%nat, [1; 2]%nat, 2%nat.
+  exists (fun k => if (k =? 1)%nat then MgOther else MgOptimal), 1%nat, 3%nat, [1; 2]%nat, 2%nat.
   repeat split; try reflexivity; [left; reflexivity|lia].
 Qed.
 
@@ -418,12 +434,12 @@ Definition gen_by (mult : nat) (g : list Q) (a : Q) : Prop :=
 Definition genset (mult : nat) (numbers : list Q) (total : Q) (g : list Q) : Prop :=
   Forall (fun v => 0 <= v) g /\ sumql g == total /\ forall a, In a numbers -> gen_by mult g a.
 
-(* finding #13: numbers [5], total 6: the loop's range is [1], size 1 has no generating multiset, size 2 has *)
-Theorem mgs_loop_upper_end_refuted : exists numbers total,
+(* FIXED finding #13 (2966290): numbers [5], total 6: the OLD loop's range is [1], size 1 has no generating multiset, size 2 has *)
+Theorem mgs_loop_old_upper_end_refuted : exists numbers total,
   (exists g, length g = 2%nat /\ genset 1 numbers total g) /\
   (forall g, length g = 1%nat -> ~ genset 1 numbers total g) /\
-  In 2%nat (mgs_range_spec 1 (length numbers)) /\ ~ In 2%nat (mgs_range 1 (length numbers)) /\
-  forall status, snd (mgs_loop status 1 (length numbers)) = None \/ snd (mgs_loop status 1 (length numbers)) = Some 1%nat.
+  In 2%nat (mgs_range 1 (length numbers)) /\ ~ In 2%nat (mgs_range_old 1 (length numbers)) /\
+  forall status, snd (mgs_loop_old status 1 (length numbers)) = None \/ snd (mgs_loop_old status 1 (length numbers)) = Some 1%nat.
 Proof.
   exists [5], 6. split; [|split; [|split; [|split]]].
   - exists [1; 5]. split; [reflexivity|]. split; [|split].
@@ -436,13 +452,13 @@ Proof.
     assert (x = 0 \/ x = 1)%Z as [->| ->] by lia; try change (inject_Z 0) with 0 in He; try change (inject_Z 1) with 1 in He; lra.
   - cbn. right. left. reflexivity.
   - cbn. intros [C|[]]. discriminate.
-  - intros status. unfold mgs_loop. cbn. destruct (is_opt (status 1%nat)); [right|left]; reflexivity.
+  - intros status. unfold mgs_loop_old. cbn. destruct (is_opt (status 1%nat)); [right|left]; reflexivity.
 Qed.
 
 (* second witness of #13: [1,2,4], total 7: {1,2,4} has size 3 = len(numbers), which the range excludes *)
-Theorem mgs_loop_upper_end_refuted2 : exists numbers total,
+Theorem mgs_loop_old_upper_end_refuted2 : exists numbers total,
   (exists g, length g = 3%nat /\ genset 1 numbers total g) /\
-  ~ In 3%nat (mgs_range 1 (length numbers)) /\ In 3%nat (mgs_range_spec 1 (length numbers)).
+  ~ In 3%nat (mgs_range_old 1 (length numbers)) /\ In 3%nat (mgs_range 1 (length numbers)).
 Proof.
   exists [1; 2; 4], 7. split; [|split].
   - exists [1; 2; 4]. split; [reflexivity|]. split; [|split].
@@ -479,16 +495,16 @@ Qed.
 Section MGS.
   Variable I : mgs_inst.
   Variable k : nat.
-  Let total := m_total I.
+  Let total := mg_total I.
   Let t := parts_t I.
-  Hypothesis mult_pos : (1 <= m_mult I)%nat.
+  Hypothesis mult_pos : (1 <= mg_mult I)%nat.
 
   Definition mgs_sem (a : var -> Q) : Prop :=
-    (forall i, In i (layers k) -> 0 <= a (Gen i) <= total /\ (m_int I = true -> is_int (a (Gen i)))) /\
+    (forall i, In i (layers k) -> 0 <= a (Gen i) <= total /\ (mg_int I = true -> is_int (a (Gen i)))) /\
     sumq (fun i => a (Gen i)) (layers k) == total /\
-    (forall j aj, In (j, aj) (zipn 0 (m_numbers I)) ->
+    (forall j aj, In (j, aj) (zipn 0 (mg_numbers I)) ->
        (forall i, In i (layers k) ->
-          exists z : Z, a (Xv i j) == inject_Z z /\ (0 <= z <= Z.of_nat (m_mult I))%Z /\
+          exists z : Z, a (Xv i j) == inject_Z z /\ (0 <= z <= Z.of_nat (mg_mult I))%Z /\
                         (mult1 I = false -> (z < 2 ^ Z.of_nat (nbits I))%Z) /\
                         a (Pij i j) == a (Xv i j) * a (Gen i)) /\
        sumq (fun i => a (Pij i j)) (layers k) == aj) /\
@@ -501,11 +517,11 @@ Section MGS.
 
   Lemma part_cols_unfold : parts_of I <> [] -> part_cols I k =
     map (fun t => bincol (Yv (fst (fst t)) (snd (fst t)) (snd t))) (ijc I k) ++
-    map (fun t => qcol (PiY (fst (fst t)) (snd (fst t)) (snd t)) 0%Q (m_total I) (m_int I)) (ijc I k).
+    map (fun t => qcol (PiY (fst (fst t)) (snd (fst t)) (snd t)) 0%Q (mg_total I) (mg_int I)) (ijc I k).
   Proof. unfold part_cols, ijc. destruct (parts_of I); [congruence|reflexivity]. Qed.
 
   Lemma part_rows_unfold : parts_of I <> [] -> part_rows I k =
-    flat_map (fun t => let '(i, j, c) := t in mcc_rows (Yv i j c) (Gen i) (PiY i j c) 0%Q (m_total I)) (ijc I k) ++
+    flat_map (fun t => let '(i, j, c) := t in mcc_rows (Yv i j c) (Gen i) (PiY i j c) 0%Q (mg_total I)) (ijc I k) ++
     flat_map (fun i => map (fun c => mkrow (map (fun j => (Yv i j c, 1%Q)) (layers (parts_t I))) SEq 1%Q) (idxs (parts_of I))) (layers k) ++
     flat_map (fun cc => map (fun jv => mkrow (map (fun i => (PiY i (fst jv) (fst cc), 1%Q)) (layers k)) SEq (snd jv))
                             (zipn 0 (snd cc))) (zipn 0 (parts_of I)).
@@ -516,7 +532,7 @@ Section MGS.
     unfold sat, encode_mgs. cbn [cols rows]. unfold mgs_cols, mgs_rows.
     rewrite !Forall_app. intros ((CG & CX & CP & CB & CY) & (RT & RJ & RS & RP)).
     rewrite Forall_map_iff in CG. rewrite Forall_flat_map in CX. rewrite Forall_flat_map in RJ.
-    assert (HG : forall i, In i (layers k) -> 0 <= a (Gen i) <= total /\ (m_int I = true -> is_int (a (Gen i)))).
+    assert (HG : forall i, In i (layers k) -> 0 <= a (Gen i) <= total /\ (mg_int I = true -> is_int (a (Gen i)))).
     { intros i Hi. destruct (CG i Hi) as (A & B & C). cbn [cvar clb cub cint qcol] in *. fold total in B. tauto. }
     unfold mgs_sem. split; [exact HG|]. split; [|split; [|split]].
     - inversion RT as [|? ? H1 _]; subst. unfold row_total in H1. rewrite sat_row_eq, eval_ones_sumq in H1. exact H1.
@@ -528,17 +544,17 @@ Section MGS.
         unfold prod_rows in RPR. unfold x_ub in HXc. destruct (mult1 I) eqn:M.
         * assert (Hb : bin (a (Xv i j))) by (apply bin_of_col; exact HXc).
           destruct (bin_int_range _ _ mult_pos Hb) as (z & Hz & Hr). exists z. split; [exact Hz|]. split; [exact Hr|]. split; [discriminate|].
-          apply (mcc_rows_exact a (Xv i j) (Gen i) (Pij i j) 0 (m_total I) Hb); [exact HGi|exact RPR].
+          apply (mcc_rows_exact a (Xv i j) (Gen i) (Pij i j) 0 (mg_total I) Hb); [exact HGi|exact RPR].
         * rewrite Forall_flat_map in CB.
-          assert (HBc : Forall (sat_col a) (intprod_cols (Pij i j) 0 (m_total I) (nbits I))).
+          assert (HBc : Forall (sat_col a) (intprod_cols (Pij i j) 0 (mg_total I) (nbits I))).
           { specialize (CB j (zipn_in_idxs _ _ _ Hj)). rewrite Forall_flat_map in CB. apply CB. exact Hi. }
-          assert (Hsem := proj1 (intprod_rows_sem (Xv i j) (Gen i) (Pij i j) 0 (m_total I) (nbits I)
+          assert (Hsem := proj1 (intprod_rows_sem (Xv i j) (Gen i) (Pij i j) 0 (mg_total I) (nbits I)
                                   ltac:(split; discriminate) ltac:(split; discriminate) ltac:(split; discriminate) a) (conj HBc RPR)).
           cbn zeta in Hsem. destruct Hsem as (HB & HF & HVx & HVp).
-          assert (Hip : intprod (nbits I) (a (Xv i j)) (a (Gen i)) (a (Pij i j)) 0 (m_total I)).
+          assert (Hip : intprod (nbits I) (a (Xv i j)) (a (Gen i)) (a (Pij i j)) 0 (mg_total I)).
           { eexists _, _. split; [|split; [exact HB|split; [exact HF|split; [exact HVx|exact HVp]]]].
             rewrite map_length, seq_length. reflexivity. }
-          assert (H0t : 0 <= 0 <= m_total I) by (fold total; lra).
+          assert (H0t : 0 <= 0 <= mg_total I) by (fold total; lra).
           apply (intprod_exact _ _ _ _ _ _ HGi H0t) in Hip. destruct Hip as (z & Hz & Hr & Hp).
           exists z. split; [exact Hz|]. split; [|split; [intros _; lia|exact Hp]].
           destruct HXc as (_ & Hu & _). cbn [cvar cub qcol] in Hu. rewrite Hz in Hu. rewrite <- Zle_Qle in Hu. lia.
@@ -556,7 +572,7 @@ Section MGS.
         * intros j Hj. assert (Hin : In (i, j, c) (ijc I k)) by (apply in_ijc; fold t; tauto).
           assert (Hb : bin (a (Yv i j c))) by (apply bin_of_col; apply (CYb _ Hin)).
           split; [exact Hb|]. specialize (RM _ Hin). cbn beta iota in RM.
-          apply (mcc_rows_exact a (Yv i j c) (Gen i) (PiY i j c) 0 (m_total I) Hb); [apply HG; exact Hi|exact RM].
+          apply (mcc_rows_exact a (Yv i j c) (Gen i) (PiY i j c) 0 (mg_total I) Hb); [apply HG; exact Hi|exact RM].
         * specialize (RU i Hi). rewrite Forall_map_iff in RU. specialize (RU c Hcidx).
           rewrite sat_row_eq, eval_ones_sumq in RU. exact RU.
       + intros j v Hjv. specialize (RSm _ Hc). cbn [fst snd] in RSm. rewrite Forall_map_iff in RSm. specialize (RSm _ Hjv).
@@ -588,17 +604,17 @@ Proof.
 Qed.
 
 (* every satisfying assignment carries a generating multiset of size k *)
-Theorem mgs_sound_multiset I k a : (1 <= m_mult I)%nat -> sat a (encode_mgs I k) ->
+Theorem mgs_sound_multiset I k a : (1 <= mg_mult I)%nat -> sat a (encode_mgs I k) ->
   let g := map (fun i => a (Gen i)) (layers k) in
-  length g = k /\ genset (m_mult I) (m_numbers I) (m_total I) g /\
-  (m_int I = true -> Forall is_int g).
+  length g = k /\ genset (mg_mult I) (mg_numbers I) (mg_total I) g /\
+  (mg_int I = true -> Forall is_int g).
 Proof.
   intros Hm Hsat. apply (mgs_enc_sound I k Hm) in Hsat. destruct Hsat as (HG & HT & HJ & _ & _). cbn zeta.
   split; [unfold layers; rewrite !map_length, seq_length; reflexivity|]. split; [split; [|split]|].
   - apply Forall_map_iff. intros i Hi. apply HG. exact Hi.
   - rewrite sumql_map. exact HT.
   - intros aj Hin. destruct (zipn_of_in _ 0 _ Hin) as (j & Hj). destruct (HJ j aj Hj) as [HX HS].
-    destruct (choose_zs (layers k) (fun i => a (Xv i j)) (fun i => a (Gen i)) (fun i => a (Pij i j)) (Z.of_nat (m_mult I))) as (zs & Hl & Hf & Hs).
+    destruct (choose_zs (layers k) (fun i => a (Xv i j)) (fun i => a (Gen i)) (fun i => a (Pij i j)) (Z.of_nat (mg_mult I))) as (zs & Hl & Hf & Hs).
     { intros i Hi. destruct (HX i Hi) as (z & Hz & Hr & _ & Hp). exists z. tauto. }
     exists zs. split; [rewrite map_length; exact Hl|]. split; [exact Hf|]. rewrite <- Hs, HS. reflexivity.
   - intros Hi. apply Forall_map_iff. intros i Hin. apply HG; assumption.
@@ -717,17 +733,17 @@ Qed.
    max_multiplicity = 2 the multiplicity 2 cannot be represented: {1/4, 3/4} generates 1/2 = 2 * 1/4 and 1/4,
    but the model for k = 2 has no satisfying assignment *)
 Theorem mgs_multiplicity_bits_refuted : exists (I : mgs_inst) (k : nat) (g : list Q),
-  m_mult I = 2%nat /\ length g = k /\ genset (m_mult I) (m_numbers I) (m_total I) g /\
+  mg_mult I = 2%nat /\ length g = k /\ genset (mg_mult I) (mg_numbers I) (mg_total I) g /\
   forall a, ~ sat a (encode_mgs I k).
 Proof.
-  exists {| m_numbers := [1 # 2; 1 # 4]; m_total := 1; m_int := false; m_mult := 2; m_parts := None |}, 2%nat, [1 # 4; 3 # 4].
+  exists {| mg_numbers := [1 # 2; 1 # 4]; mg_total := 1; mg_int := false; mg_mult := 2; mg_parts := None |}, 2%nat, [1 # 4; 3 # 4].
   split; [reflexivity|]. split; [reflexivity|]. split.
-  - cbn [m_mult m_numbers m_total]. split; [repeat constructor; lra|]. split; [vm_compute; reflexivity|].
+  - cbn [mg_mult mg_numbers mg_total]. split; [repeat constructor; lra|]. split; [vm_compute; reflexivity|].
     intros a [<-|[<-|[]]].
     + exists [2; 0]%Z. split; [reflexivity|]. split; [repeat (apply Forall_cons; [lia|]); apply Forall_nil|]. vm_compute; reflexivity.
     + exists [1; 0]%Z. split; [reflexivity|]. split; [repeat (apply Forall_cons; [lia|]); apply Forall_nil|]. vm_compute; reflexivity.
   - intros a Hsat. apply mgs_enc_sound in Hsat; [|cbn; lia]. destruct Hsat as (_ & HT & HJ & _ & _).
-    cbn [m_total m_numbers] in HT, HJ.
+    cbn [mg_total mg_numbers] in HT, HJ.
     change (layers 2) with [0; 1]%N in *. cbn [sumq] in HT.
     destruct (HJ 0%N (1 # 2) (or_introl eq_refl)) as [HX0 HS0].
     destruct (HJ 1%N (1 # 4) (or_intror (or_introl eq_refl))) as [HX1 HS1].
